@@ -9,8 +9,9 @@
   run_impl_cases / run_model_cases  implementation worker (harness/impl/schema_impl.py) and the Gallina
                                     model (Model/Schema.v through Model/SchemaRun.v, vm_compute case files)
   correspond(run, ...)              line-by-line diff of the two
-  spec_valid_lines(...)             the frozen-spec validator (Spec/StixValid.v) evaluated by the kernel on
-                                    JSON the implementation emitted
+  spec_valid_lines(...)             the frozen-spec validator (Spec/StixValid.v: valid_obj_x = valid_obj plus the
+                                    audited strict-base64 and dictionary-value rules) evaluated by the kernel
+                                    on JSON the implementation emitted
 
 Exported names are used by c02.py, c03.py (this builder) and c04.py, c01.py (another builder): keep stable.
 """
@@ -116,6 +117,8 @@ class Variants:
             "vr_positional_none": bool(probes.get("positional_empty_string", False)),
             "vr_bundle20_recheck": not probes.get("bundle20_member_21_sco", True),
             "vr_md20_default_ms": bool(probes.get("md20_default_ms", False)),
+            "vr_b64_strict": not probes.get("b64_garbage", True),
+            "vr_detect_notype_parse": probes.get("detect_notype", "KeyError") == "ParseError",
         }
 
     def coq_variant(self):
@@ -434,8 +437,8 @@ SPEC_HEADER = ("From Coq Require Import NArith ZArith List String Bool.\n"
                "Import ListNotations. Open Scope string_scope.\n"
                "Definition OK20 : list ustring := %s.\nDefinition OK21 : list ustring := %s.\n"
                "Definition pok (v : ver) (p : ustring) := mem_ustr p (match v with V20 => OK20 | V21 => OK21 end).\n"
-               "Definition SV (cid : ustring) (j : jvalue) : string := show_bool (valid_obj spec pok %d cid j).\n"
-               "Definition WHY (cid : ustring) (j : jvalue) : string := show_why (explain_obj spec pok %d cid j).\n")
+               "Definition SV (cid : ustring) (j : jvalue) : string := show_bool (valid_obj_x spec pok %d cid j).\n"
+               "Definition WHY (cid : ustring) (j : jvalue) : string := show_why (explain_obj_x spec pok %d cid j).\n")
 
 
 def spec_valid_lines(items, pats=None, tag="spv", explain=False):
